@@ -201,7 +201,7 @@ Proof.
 Qed.
 
 Lemma tau_b_taken f x : In x (bformula_vars f) ->
-  In x (map vname (iset_extend var_dec [] (map gvar (bformula_vars f)))).
+  In x (map vname (iset_extend vdec [] (map gvar (bformula_vars f)))).
 Proof.
   intros Hx. apply in_map_iff. exists (gvar x). split; [reflexivity|].
   apply in_iset_extend. right. apply in_map. exact Hx.
